@@ -702,6 +702,12 @@ class Evaluator:
         term = ("call", f, args, kws)
         self.emit("call", ctx, n, term=term)
         fs = strip(f)
+        # numpy's  out=x : the result is written into x and x is what the call returns - the local name stands for the result from here on
+        # (np.add(a, b, out=a): a now holds the sum, for every later reader of a)
+        for k in n.keywords:
+            if k.arg == "out" and isinstance(k.value, ast.Name) and k.value.id in env and head(fs) in ("glob", "attr") \
+                    and self.scopes and k.value.id in self.scopes[-1]["locals"] and not (isinstance(k.value, ast.Constant)):
+                env[k.value.id] = term
         if head(fs) == "glob" and fs[1] in self._FRESH_CALLS:
             return ("alloc", self.nid("obj", n), term)
         if head(fs) == "attr" and fs[2] == "copy":
